@@ -4,7 +4,8 @@
 //!
 //! case  := be create nstray { relpath len seed }* nops { op }*
 //! be    := 0 local | 1 opendal fs | 2 opendal memory
-//! op    := W t id len seed nchunks | R t id | P t id off len | L t | S t | D t id
+//! op    := W t id len seed chunking |   (chunking: see `blist`; empty chunks at any position)
+//!           R t id | P t id off len | L t | S t | D t id
 //!        | H t id len seed nchunks      (write; at the pre-publish hook list everything)
 //!        | C t id len seed nchunks      (write; "crash" at the pre-publish hook, re-open)
 //! t     := 0 Config | 1 Index | 2 Key | 3 Snapshot | 4 Pack ; id := 64 hex digits
@@ -40,16 +41,24 @@ fn digest(b: &[u8]) -> String {
     format!("ok:{}:{}:{}", b.len(), h1, h2)
 }
 
-fn blist(data: &[u8], nchunks: usize) -> BytesList {
-    if nchunks == 0 {
-        return BytesList::default();
-    }
+/// `code` = k + 16 * pat: the data is split evenly into k chunks (k = 0: no data chunk);
+/// pat = sum e_j * 4^j (j = 0..=k) inserts e_j (0..=3) EMPTY chunks in front of data chunk j
+/// (j = k: behind the last one).  Empty chunks carry no bytes: the content is unchanged.
+fn blist(data: &[u8], code: usize) -> BytesList {
+    let nchunks = code % 16;
+    let mut pat = code / 16;
     let mut bl = BytesList::default();
     let n = data.len();
-    for c in 0..nchunks {
-        let a = n * c / nchunks;
-        let b = n * (c + 1) / nchunks;
-        bl.add(Bytes::copy_from_slice(&data[a..b]));
+    for c in 0..=nchunks {
+        for _ in 0..(pat % 4) {
+            bl.add(Bytes::new());
+        }
+        pat /= 4;
+        if c < nchunks {
+            let a = n * c / nchunks;
+            let b = n * (c + 1) / nchunks;
+            bl.add(Bytes::copy_from_slice(&data[a..b]));
+        }
     }
     bl
 }
